@@ -786,4 +786,132 @@ func checkC07(c *Check) {
 			c.Hold("R5", key, call.Pos(), msg == "", msg)
 		}
 	}
+	c07DomainComparisons(c)
+}
+
+// R7: names of domains are compared without regard to case, whole name against whole name.
+//
+// DMARC decides on three comparisons of domain names: the From domain against the authenticated identifier (strict),
+// their organizational domains (relaxed), and the domain the record was found at against the From domain (p= or sp=).
+// The names come from a header, from DKIM / SPF results and from the DNS walk, in whatever spelling the sender chose:
+// a byte-wise `==`, or a prefix / suffix test without a label boundary, gives a different verdict for `Example.COM`
+// or `notexample.org` than for the name it is. Decided structurally in package internal/dmarc: (a) no `==` / `!=`
+// between two non-constant strings (unless both sides are lower-cased), no HasPrefix / HasSuffix / Contains with a
+// non-constant pattern; (b) isAligned returns the constant false or an EqualFold of its two parameters – both
+// as given, or both reduced to their organizational domain by the same function.
+func c07DomainComparisons(c *Check) {
+	p := c.P
+	c.Rule("R7", "internal/dmarc: domain names are compared case-insensitively and whole (EqualFold; no byte-wise == between two computed strings, no prefix / suffix match with a computed pattern); isAligned answers true only as EqualFold(from, auth) or EqualFold(org(from), org(auth))", 4)
+	pk := p.Pkg("internal/dmarc")
+	if pk == nil {
+		c.Fail("R7", "package", token.NoPos, "anchor unresolved")
+		return
+	}
+	info := pk.TypesInfo
+	isConstStr := func(e ast.Expr) bool {
+		tv, ok := info.Types[e]
+		return ok && tv.Value != nil
+	}
+	lowered := func(body ast.Node, e ast.Expr) bool {
+		e = resolveLocal(info, body, e)
+		call, ok := ast.Unparen(e).(*ast.CallExpr)
+		return ok && isCall(info, call, "strings.ToLower", "strings.ToUpper")
+	}
+	p.AllFuncs([]*packagesPkg{pk}, func(fi *FuncInfo) {
+		if strings.HasSuffix(p.Fset.Position(fi.Decl.Pos()).Filename, "_test.go") {
+			return
+		}
+		n := 0
+		ast.Inspect(fi.Decl.Body, func(x ast.Node) bool {
+			switch e := x.(type) {
+			case *ast.BinaryExpr:
+				if e.Op != token.EQL && e.Op != token.NEQ {
+					return true
+				}
+				tx, ty := info.TypeOf(e.X), info.TypeOf(e.Y)
+				if tx == nil || ty == nil || !isStringType(tx) || !isStringType(ty) || isConstStr(e.X) || isConstStr(e.Y) {
+					return true
+				}
+				n++
+				ok := lowered(fi.Decl.Body, e.X) && lowered(fi.Decl.Body, e.Y)
+				c.SawFunc(fi.Name())
+				c.Hold("R7", refName(fi.Obj)+":cmp"+itoa(n), e.Pos(), ok, "two computed strings are compared byte-wise ("+exprStr(e)+"): a domain name spelled with other letter case (From: user@Example.COM) is taken for a different domain – e.g. for a subdomain, which selects sp= instead of p=")
+			case *ast.CallExpr:
+				if isCall(info, e, "strings.EqualFold") {
+					n++
+					c.SawFunc(fi.Name())
+					c.Hold("R7", refName(fi.Obj)+":cmp"+itoa(n), e.Pos(), true, "")
+					return true
+				}
+				if isCall(info, e, "strings.HasSuffix", "strings.HasPrefix", "strings.Contains", "strings.Index", "strings.LastIndex") && len(e.Args) == 2 && !isConstStr(e.Args[1]) {
+					n++
+					c.SawFunc(fi.Name())
+					c.Hold("R7", refName(fi.Obj)+":cmp"+itoa(n), e.Pos(), false, "a computed string is used as a prefix / suffix / substring pattern ("+exprStr(e)+"): without a label boundary `notexample.org` matches `example.org` and counts as the same organization")
+				}
+			}
+			return true
+		})
+	})
+	ia := c.In("internal/dmarc", "", "isAligned")
+	if ia == nil {
+		c.Fail("R7", "isAligned", token.NoPos, "anchor unresolved")
+		return
+	}
+	sig := ia.FI.Obj.Type().(*types.Signature)
+	var params []types.Object
+	for i := 0; i < sig.Params().Len(); i++ {
+		if types.Identical(sig.Params().At(i).Type(), types.Typ[types.String]) {
+			params = append(params, sig.Params().At(i))
+		}
+	}
+	// an operand is a parameter as given ("id") or the result of a reducing function applied to one ("fn name")
+	classify := func(e ast.Expr) (kind string, prm types.Object) {
+		e = resolveLocal(info, ia.FI.Decl.Body, e)
+		if o := objOf(info, e); o != nil {
+			for _, q := range params {
+				if q == o {
+					return "id", q
+				}
+			}
+		}
+		if call, ok := ast.Unparen(e).(*ast.CallExpr); ok && len(call.Args) == 1 {
+			if fn := callee(info, call); fn != nil {
+				if o := objOf(info, call.Args[0]); o != nil {
+					for _, q := range params {
+						if q == o {
+							return qname(fn), q
+						}
+					}
+				}
+			}
+		}
+		return "", nil
+	}
+	msg, nret := "", 0
+	inspectNoLit(ia.FI.Decl.Body, func(x ast.Node) bool {
+		ret, ok := x.(*ast.ReturnStmt)
+		if !ok || len(ret.Results) != 1 {
+			return true
+		}
+		nret++
+		r0 := ast.Unparen(ret.Results[0])
+		if tv, ok := info.Types[r0]; ok && tv.Value != nil && tv.Value.Kind() == constant.Bool && !constant.BoolVal(tv.Value) {
+			return true
+		}
+		call, ok := r0.(*ast.CallExpr)
+		if !ok || !isCall(info, call, "strings.EqualFold") || len(call.Args) != 2 {
+			msg = "line " + itoa(p.Fset.Position(ret.Pos()).Line) + ": the answer is not an EqualFold comparison of the two names (or the constant false)"
+			return true
+		}
+		k1, p1 := classify(call.Args[0])
+		k2, p2 := classify(call.Args[1])
+		if k1 == "" || k2 == "" || k1 != k2 || p1 == p2 {
+			msg = "line " + itoa(p.Fset.Position(ret.Pos()).Line) + ": EqualFold does not compare the From domain and the authenticated identifier under the same reduction (" + exprStr(call.Args[0]) + " vs " + exprStr(call.Args[1]) + "): relaxed alignment compares the organizational domain of both"
+		}
+		return true
+	})
+	if len(params) != 2 || nret < 2 {
+		msg = "undecided: expected two name parameters and at least two returns"
+	}
+	c.Hold("R7", "isAligned:answers", ia.FI.Decl.Pos(), msg == "", msg)
 }
